@@ -34,7 +34,7 @@ def main(tier):
         for x in lines:
             cells.add((x["ev"], x["et"], len(x["plain"]) // 2, tuple(x["u"])))
         run.cov["distinct_nontrivial"] = len(cells)
-        run.cov["rule"] = ("enc lines: etype x plaintext length 0..130 x key usages (3 per cell in quick, all 23 in thorough), random "
+        run.cov["rule"] = ("enc lines: etype x plaintext length 0..130 (thorough: and 18 longer ones up to 16 384) x key usages (3 fixed + 1 seeded per cell in quick, all 23 + 10 seeded over the 32-bit range in thorough), random "
                            "keys/contents, library encrypts twice and decrypts once; dec lines: ciphertexts minted by the TLA+ RFC "
                            "transcription for seeded keys/confounders, library decrypts. distinct = distinct (direction, etype, "
                            "length, usage) cells; every cell is non-trivial (a byte-exact comparison of a full message)")
